@@ -95,6 +95,8 @@ OP(op_hash_xof_at_block_end) { uint8_t *o2 = (uint8_t *)c + sizeof(tctx) - 37; a
 extern void *c16_shared_ct; extern uint8_t c16_shared_ct_key[16], c16_shared_ct_nonce[16];
 OP(op_cpp_shared_byte_array) { if (!c16_shared_ct) { *ol = 0; return; } void *h = cpps_new(0, 1); cpps_set_key(h, c16_shared_ct_key, 16); cpps_set_nonce(h, c16_shared_ct_nonce, 16);
     int a = cpps_decrypt_shared_ba(h, out + 2, c16_shared_ct, 0, 0, 1); cpps_set_nonce(h, c16_shared_ct_nonce, 16); int b = cpps_decrypt_shared_ba(h, out + 60, c16_shared_ct, 0, 0, 2); cpps_delete(h); out[0] = (uint8_t)a; out[1] = (uint8_t)b; *ol = 110; }
+OP(op_cpp_shared_byte_array_inputs) { if (!c16_shared_ct) { *ol = 0; return; } void *h = cpps_new(0, 0); cpps_set_key(h, c16_shared_ct_key, 16); cpps_set_nonce(h, c16_shared_ct_nonce, 16);
+    cpps_consume_shared_ba(h, out, c16_shared_ct); cpps_delete(h); *ol = 150; }
 
 typedef struct { const char *name; opfn fn; } opdesc;
 static const opdesc OPS[] = {
@@ -107,6 +109,7 @@ static const opdesc OPS[] = {
     {"masked80pq-shared-key-rejecting-decrypt", op_masked80pq_shared_reject}, {"masked128-shared-key-rejecting-decrypt", op_masked128_shared_reject}, {"isap128a-shared-key-rejecting-decrypt", op_isap128a_shared_reject},
     {"aead128-rejecting-decrypt-at-block-end", op_aead128_reject_at_block_end}, {"aead128a-roundtrip-at-block-end", op_aead128a_roundtrip_at_block_end}, {"siv80pq-rejecting-decrypt-at-block-end", op_siv80pq_reject_at_block_end}, {"xof+prf-output-at-block-end", op_hash_xof_at_block_end},
     {"cpp-shared-constant-byte_array", op_cpp_shared_byte_array},
+    {"cpp-shared-constant-byte_array-as-input", op_cpp_shared_byte_array_inputs},
 };
 #define NOPS ((int)(sizeof OPS / sizeof OPS[0]))
 
